@@ -124,8 +124,17 @@ F19_WITNESS = {"op": "contest", "scf": PLUR, "contest": "AvB", "candidates": ["a
                         card(3, "AvB", [["b", True]])]}
 
 
+# finding F30 (repaired): candidates a, a v b, b v c, c with reported winners a, a v b -- the pairs (a, b v c) and
+# (a v b, c) are both named "a v b v c".  On these cards the reported winner a (1 mark) lost to b v c (2 marks); the
+# unrepaired constructor built 3 assertions for the 4 pairs, all with mean > 1/2; the repaired one raises ValueError
+F30_WITNESS = {"op": "contest", "scf": PLUR, "contest": "K", "candidates": ["a", "a v b", "b v c", "c"],
+               "winners": ["a", "a v b"], "n_winners": 2, "share": 0.5,
+               "cvrs": [card(1, "K", [["a v b", True]]), card(2, "K", [["a v b", True]]), card(3, "K", [["a v b", True]]),
+                        card(4, "K", [["b v c", True]]), card(5, "K", [["b v c", True]]), card(6, "K", [["a", True]])]}
+
+
 def corpus():
-    out = [F19_WITNESS]
+    out = [F19_WITNESS, F30_WITNESS, {**F30_WITNESS, "direct": True}]
     # the witness of the (repaired) super-majority margin formula: blank card, winner has valid votes
     out.append({"op": "contest", "scf": SUPER, "contest": "S", "candidates": ["a", "b"], "winners": ["a"],
                 "n_winners": 1, "share": 0.5,
@@ -227,7 +236,22 @@ def corpus():
 
 
 NAMES = [["a", "b", "c", "d", "e", "f"], ["Alice", "Bob", "Carol", "Dave", "Erin", "Frank"],
-         ["1", "2", "3", "4", "5", "6"], ["yes", "no", "x y", "ALL", "WRITE_IN", "q"]]
+         ["1", "2", "3", "4", "5", "6"], ["yes", "no", "x y", "ALL", "WRITE_IN", "q"],
+         # names containing the separator of the assertion names `winner + " v " + loser`: the pairs (a, b v c) and
+         # (a v b, c) are both named "a v b v c" (finding F30: the constructor must not drop one of them silently)
+         ["a", "a v b", "b v c", "c", "b", "a v a"]]
+
+
+def _name_clash(case):
+    """do two DIFFERENT (winner, loser) pairs of the plurality / approval contest get the same assertion name?"""
+    losers = [c for c in dict.fromkeys(case["candidates"]) if c not in case["winners"]]
+    seen = {}
+    for w in case["winners"]:
+        for l in losers:
+            k = w + " v " + l
+            if seen.setdefault(k, (w, l)) != (w, l):
+                return True
+    return False
 SHARES_DYADIC = [0.5, 0.25, 0.75, 0.375, 0.625]
 SHARES = SHARES_DYADIC + [0.55, 0.6, 2 / 3, 1 / 3, 0.9, 0.1, 0.51]
 
@@ -343,6 +367,10 @@ def gen_contest(rng, tier, like=None):
            "n_winners": n_winners, "share": share, "cvrs": cvrs}
     if scf != APPR and rng.chance(0.3):
         out["direct"] = True        # make_plurality_assertions / make_supermajority_assertion called directly
+    if rng.chance(0.12):
+        out["votes_type"] = rng.choice(["defaultdict", "defaultdict", "ordered"])
+    if rng.chance(0.12):
+        out["np_marks"] = True      # marks held as numpy scalars (np.int64(5), np.bool_(True))
     return out
 
 
@@ -591,8 +619,28 @@ def _contest_dict(case, cards):
 
 def _cvrs(case):
     from shangrla.core.Audit import CVR
-    return CVR.from_dict([{"id": c["id"], "votes": {k: {cand: v for cand, v in m} for k, m in c["votes"]}}
-                          for c in case["cvrs"]])
+    out = CVR.from_dict([{"id": c["id"], "votes": {k: {cand: v for cand, v in m} for k, m in c["votes"]}}
+                         for c in case["cvrs"]])
+    if case.get("np_marks") or _NP_MARKS[0]:
+        import numpy as np
+        conv = lambda x: (np.bool_(x) if isinstance(x, bool) else np.int64(x) if isinstance(x, int) else x)
+        for c in out:
+            c.votes = {k: {cand: conv(x) for cand, x in v.items()} for k, v in c.votes.items()}
+    vt = case.get("votes_type") or _VOTES_TYPE[0]
+    if vt:
+        # the vote dict as another Mapping type (records assembled with collections.defaultdict / OrderedDict): reading a
+        # card must not change it -- a lookup that inserts the contest would make has_contest() true afterwards
+        import collections
+        for c in out:
+            if vt == "defaultdict":
+                c.votes = collections.defaultdict(dict, {k: collections.defaultdict(bool, v) for k, v in c.votes.items()})
+            else:
+                c.votes = collections.OrderedDict(c.votes)
+    return out
+
+
+_VOTES_TYPE = [None]
+_NP_MARKS = [False]
 
 
 def _try(f):
@@ -684,6 +732,16 @@ def _amend(cvrs, ops):
 
 
 def impl_contest(case):
+    _VOTES_TYPE[0] = case.get("votes_type")
+    _NP_MARKS[0] = bool(case.get("np_marks"))
+    try:
+        return _impl_contest(case)
+    finally:
+        _VOTES_TYPE[0] = None
+        _NP_MARKS[0] = False
+
+
+def _impl_contest(case):
     from shangrla.core.Audit import Contest, Assertion
     cid = case["contest"]
     rounds = case.get("rounds") or []
@@ -1019,7 +1077,17 @@ def oracle_c02(case, ir):
 def _oracle_state(case, ir):
     op = case["op"]
     if ir.get("st") != "ok":
+        if op == "contest" and case["scf"] in (PLUR, APPR) and ir.get("err") == "ValueError" and _name_clash(case):
+            return None     # two different pairs would share one assertion name: refusing is right (dropping one is F30)
         return {"what": f"{op}: the implementation raised {ir.get('err')}: {ir.get('msg', '')}"}
+    if op == "contest" and case["scf"] in (PLUR, APPR):
+        # one assertion for EVERY (reported winner, reported loser) pair -- what the all-pairs statement is about
+        have = {(a["winner"], a["loser"]) for a in ir["assertions"].values()}
+        losers_ = [c for c in dict.fromkeys(case["candidates"]) if c not in case["winners"]]
+        missing = [(w, l) for w in case["winners"] for l in losers_ if (w, l) not in have]
+        if missing:
+            return {"what": f"no assertion compares winner {missing[0][0]!r} with loser {missing[0][1]!r} "
+                            f"(assertions built: {sorted(ir['assertions'])}): that pair would never be audited"}
     if op == "margin":
         return None         # no cards: nothing of the property to evaluate (the correspondence covers the branch)
     cvrs = case["cvrs"]
@@ -1040,6 +1108,14 @@ def _oracle_state(case, ir):
     contest, cands, scf = case["contest"], case["candidates"], case["scf"]
     n = len(cvrs)
     n_style = sum(1 for c in cvrs if _dict_of(c, contest) is not None)
+    # "over the same cards": which cards list the contest is a fact about the ballots, not about what has been computed
+    # on them -- after every assorter, mean, sum and margin has been evaluated the cards must list what they listed
+    if case.get("phantoms") is None and len(ir.get("has_contest", [])) == n:
+        for j, c in enumerate(cvrs):
+            if bool(ir["has_contest"][j]) != (_dict_of(c, contest) is not None):
+                return {"what": f"after the evaluations card {j} {c['votes']} "
+                                f"{'lists' if ir['has_contest'][j] else 'no longer lists'} contest {contest!r}: the style-based "
+                                f"means and margins are then taken over other cards than the tally"}
     f = Fraction(float(case["share"]))
     tagged = None
     if scf in (PLUR, APPR):
